@@ -511,18 +511,26 @@ func ParseDSL(data string) (*OpenFgaDslListener, *OpenFgaDslErrorListener) {
 	cleanedLines := []string{}
 
 	for _, line := range strings.Split(data, "\n") {
-		cleanedLine := ""
+		// a carriage return ends a line for the lexer as well (on its own or as part of CR LF),
+		// so a comment ends there and does not swallow what follows
+		segments := strings.Split(line, "\r")
 
-		switch {
-		case len(strings.TrimLeft(line, " ")) == 0:
-			// do nothing, it's an empty line
-		case strings.TrimLeft(line, " ")[0:1] == "#":
-			cleanedLine = ""
-		default:
-			cleanedLine = strings.TrimRight(strings.Split(line, " #")[0], " ")
+		for idx, segment := range segments {
+			cleanedSegment := ""
+
+			switch {
+			case len(strings.TrimLeft(segment, " ")) == 0:
+				// do nothing, it's an empty line
+			case strings.TrimLeft(segment, " ")[0:1] == "#":
+				cleanedSegment = ""
+			default:
+				cleanedSegment = strings.TrimRight(strings.Split(segment, " #")[0], " ")
+			}
+
+			segments[idx] = cleanedSegment
 		}
 
-		cleanedLines = append(cleanedLines, cleanedLine)
+		cleanedLines = append(cleanedLines, strings.Join(segments, "\r"))
 	}
 
 	cleanedData := strings.TrimRight(strings.Join(cleanedLines, "\n"), "\n")
